@@ -60,6 +60,18 @@ pub fn line_mutations(line: &str, rng: &mut Rng, dense: bool) -> Vec<Vec<u8>> {
     for k in 0..=b.len() {
         v.push(b[..k].to_vec());
     }
+    // a prefix with one multi-byte character somewhere inside it (byte length and character count differ at the cut)
+    for k in 1..=b.len() {
+        let n = if dense { 4 } else { 2 };
+        for _ in 0..n {
+            let j = rng.below(k);
+            let s = *rng.pick(&["\u{e9}".as_bytes(), "\u{2028}".as_bytes(), "\u{1F600}".as_bytes()]);
+            let mut x = b[..j].to_vec();
+            x.extend_from_slice(s);
+            x.extend_from_slice(&b[j + 1..k]);
+            v.push(x);
+        }
+    }
     for k in 0..b.len() {
         let subs: Vec<&[u8]> = if dense { SUBST.to_vec() } else { (0..3).map(|_| *rng.pick(SUBST)).collect() };
         for s in subs {
